@@ -430,6 +430,13 @@ func (db *DB) MaxVersion() uint64 {
 			maxVersion = a
 		}
 	}
+	vhook.WaitLock("db.lock.w", func() bool {
+		if db.lock.TryLock() {
+			db.lock.Unlock()
+			return true
+		}
+		return false
+	})
 	db.lock.Lock()
 	// In read only mode, we do not create new mem table.
 	if !db.opt.ReadOnly {
@@ -576,6 +583,13 @@ func (db *DB) close() (err error) {
 			db.opt.Debugf("Flushing memtable")
 			for {
 				pushedMemTable := func() bool {
+					vhook.WaitLock("db.lock.w", func() bool {
+						if db.lock.TryLock() {
+							db.lock.Unlock()
+							return true
+						}
+						return false
+					})
 					db.lock.Lock()
 					defer db.lock.Unlock()
 					y.AssertTrue(db.mt != nil)
@@ -1175,6 +1189,13 @@ func (db *DB) flushMemtable(lc *z.Closer) {
 
 			// Update s.imm. Need a lock.
 			vhook.Point("flusher.beforePop")
+			vhook.WaitLock("db.lock.w", func() bool {
+				if db.lock.TryLock() {
+					db.lock.Unlock()
+					return true
+				}
+				return false
+			})
 			db.lock.Lock()
 			// This is a single-threaded operation. mt corresponds to the head of
 			// db.imm list. Once we flush it, we advance db.imm. The next mt
@@ -1537,6 +1558,13 @@ func (db *DB) Ranges(prefix []byte, numRanges int) []*keyRange {
 			_ = iter.Close()
 		}
 
+		vhook.WaitLock("db.lock.w", func() bool {
+			if db.lock.TryLock() {
+				db.lock.Unlock()
+				return true
+			}
+			return false
+		})
 		db.lock.Lock()
 		defer db.lock.Unlock()
 		var memTables []*memTable
@@ -1802,6 +1830,13 @@ func (db *DB) dropAll() (func(), error) {
 		f()
 	}
 	// Block all foreign interactions with memory tables.
+	vhook.WaitLock("db.lock.w", func() bool {
+		if db.lock.TryLock() {
+			db.lock.Unlock()
+			return true
+		}
+		return false
+	})
 	db.lock.Lock()
 	defer db.lock.Unlock()
 	vhook.NoYield(1)
@@ -1868,6 +1903,13 @@ func (db *DB) DropPrefix(prefixes ...[]byte) error {
 		return nil
 	}
 	// Block all foreign interactions with memory tables.
+	vhook.WaitLock("db.lock.w", func() bool {
+		if db.lock.TryLock() {
+			db.lock.Unlock()
+			return true
+		}
+		return false
+	})
 	db.lock.Lock()
 	defer db.lock.Unlock()
 	vhook.NoYield(1)
